@@ -76,6 +76,19 @@ Theorem C19_janitor_state_agrees :
 Proof. exact janitor_state_agrees_proof. Qed.
 Print Assumptions C19_janitor_state_agrees.
 
+(* The one build option MAX_MATCH_SET_LEN = N reaches C as -D and Go as a link-time string.  For every N the
+   control plane's init() accepts (does not panic on), the limits both sides derive are equal: rule-count limit,
+   bitmap words (exact: the words cover every rule index), and every LPM ring index is a kernel slot. *)
+Theorem C19_limit_override_agrees : forall n m, go_rule_limit n = Some m -> limits_agree n m.
+Proof. exact limit_override_agrees_proof. Qed.
+Print Assumptions C19_limit_override_agrees.
+
+(* ... which is false of an init() that rounds up instead of refusing (witness N = 1000: kernel 1000, Go 1024). *)
+Theorem C19_limit_override_rounding_refuted :
+  exists n m, run_init [IRoundUp 31 32] n = Some m /\ ~ limits_agree n m.
+Proof. exact limit_override_rounding_refuted_proof. Qed.
+Print Assumptions C19_limit_override_rounding_refuted.
+
 (* LPM keys: every prefix in every Go representation gives the spec key; the kernel's lookup keys for a
    packet are the full-length spec keys of its addresses; a host prefix's key is byte-identical to the lookup key. *)
 Theorem C19_lpm_key_bytes :
